@@ -33,3 +33,99 @@ Qed.
 Ltac reflect_finite :=
   repeat first [ apply fb_spec | apply fst4_spec | apply fph_spec | apply fck_spec ];
   vm_compute; reflexivity.
+
+(* ------------------------------------------------------------------------------------------ *)
+(* enumeration of the finite view [av] of a member, pruned by the consistency facts that hold of every
+   [absm c m] when the coordinator is well-formed *)
+Definition fcodes (l : list Z) (f : option Z -> bool) : bool := f None && forallb (fun z => f (Some z)) l.
+Lemma fcodes_spec : forall l f, fcodes l f = true -> forall o, opt_in o l = true -> f o = true.
+Proof. exact fcode_spec. Qed.
+
+Definition ib_ok (i : ibk) : bool :=
+  match i with INone => true | IJ c => zmem c join_codes | IS c => zmem c probe_codes end.
+Definition fib (f : ibk -> bool) : bool :=
+  f INone && forallb (fun z => f (IJ z)) join_codes && forallb (fun z => f (IS z)) probe_codes.
+Lemma fib_spec : forall f, fib f = true -> forall i, ib_ok i = true -> f i = true.
+Proof.
+  intros f H i Hi. unfold fib in H. apply andb_true_iff in H. destruct H as [H HS]. apply andb_true_iff in H. destruct H as [HN HJ].
+  destruct i as [|c|c]; unfold ib_ok in Hi; [exact HN| |].
+  - unfold zmem in Hi. apply existsb_exists in Hi. destruct Hi as [y [Hy E]]. apply Z.eqb_eq in E. subst y.
+    rewrite forallb_forall in HJ. apply HJ. exact Hy.
+  - unfold zmem in Hi. apply existsb_exists in Hi. destruct Hi as [y [Hy E]]. apply Z.eqb_eq in E. subst y.
+    rewrite forallb_forall in HS. apply HS. exact Hy.
+Qed.
+
+(* an id against the coordinator's table: = 0, in the table, pending, parked-join flag, parked-sync flag *)
+Definition cons_id (z e p jp sp : bool) : bool :=
+  (negb z || (negb e && negb p)) && (negb e || negb p) && (e || (negb jp && negb sp)).
+(* a generation against the coordinator's: = 0, equal, less or equal; [G0]: the coordinator's is 0 *)
+Definition cons_gen (G0 z eq le : bool) : bool :=
+  (negb eq || le) && (negb z || le) && (negb G0 || Bool.eqb z eq) && (G0 || negb (z && eq)) && (negb (G0 && le) || z).
+
+Definition cons_focus (ph : phase) (idz id_e id_p id_jp id_sp fz f_e f_p f_jp f_sp f_id : bool) : bool :=
+  if ph_eqb ph PJoinSent then
+    cons_id fz f_e f_p f_jp f_sp
+    && (negb f_id || (Bool.eqb fz idz && Bool.eqb f_e id_e && Bool.eqb f_p id_p && Bool.eqb f_jp id_jp && Bool.eqb f_sp id_sp))
+    && (negb (fz && idz) || f_id)
+  else fz && negb f_e && negb f_p && negb f_jp && negb f_sp && Bool.eqb f_id idz.
+Definition cons_g (ib : ibk) (G0 gz g_eq g_le : bool) : bool :=
+  match ib with IJ _ => cons_gen G0 gz g_eq g_le | _ => gz && Bool.eqb g_eq G0 && g_le end.
+
+Definition cons_a (a : av) : bool :=
+  cons_id (a_idz a) (a_id_e a) (a_id_p a) (a_id_jp a) (a_id_sp a)
+  && cons_gen (a_G0 a) (a_genz a) (a_gen_eq a) (a_gen_le a)
+  && cons_focus (a_ph a) (a_idz a) (a_id_e a) (a_id_p a) (a_id_jp a) (a_id_sp a)
+                (a_fz a) (a_f_e a) (a_f_p a) (a_f_jp a) (a_f_sp a) (a_f_id a)
+  && cons_g (a_ib a) (a_G0 a) (a_gz a) (a_g_eq a) (a_g_le a)
+  && ib_ok (a_ib a) && opt_in (a_hbin a) probe_codes && opt_in (a_cmin a) probe_codes.
+
+Definition fin_t := bool -> phase -> ibk -> bool -> ckst -> bool -> option Z -> option Z -> cstate -> bool.
+Definition fin_of (p : fin_t) (a : av) : bool :=
+  p (a_live a) (a_ph a) (a_ib a) (a_rejoin a) (a_ck a) (a_hb a) (a_hbin a) (a_cmin a) (a_st a).
+
+Definition forall_av (pre : fin_t) (P : av -> bool) : bool :=
+  fb (fun live => fph (fun ph => fib (fun ib => fb (fun rejoin => fck (fun ck => fb (fun hb =>
+  fcodes probe_codes (fun hbin => fcodes probe_codes (fun cmin => fst4 (fun st =>
+    if pre live ph ib rejoin ck hb hbin cmin st then
+      fb (fun G0 =>
+      fb (fun idz => fb (fun id_e => fb (fun id_p => fb (fun id_jp => fb (fun id_sp =>
+        if cons_id idz id_e id_p id_jp id_sp then
+      fb (fun genz => fb (fun gen_eq => fb (fun gen_le =>
+        if cons_gen G0 genz gen_eq gen_le then
+      fb (fun fz => fb (fun f_e => fb (fun f_p => fb (fun f_jp => fb (fun f_sp => fb (fun f_id =>
+        if cons_focus ph idz id_e id_p id_jp id_sp fz f_e f_p f_jp f_sp f_id then
+      fb (fun gz => fb (fun g_eq => fb (fun g_le =>
+        if cons_g ib G0 gz g_eq g_le then
+          P (mkA live ph rejoin ck hb ib hbin cmin st G0 idz id_e id_p id_jp id_sp genz gen_eq gen_le
+                 fz f_e f_p f_jp f_sp f_id gz g_eq g_le)
+        else true)))
+        else true))))))
+        else true)))
+        else true))))))
+    else true))))))))).
+
+Lemma forall_av_spec : forall pre P, forall_av pre P = true ->
+  forall a, cons_a a = true -> fin_of pre a = true -> P a = true.
+Proof.
+  intros pre P H a Hc Hp. destruct a as [live ph rejoin ck hb ib hbin cmin st G0 idz id_e id_p id_jp id_sp genz gen_eq gen_le
+                                            fz f_e f_p f_jp f_sp f_id gz g_eq g_le].
+  unfold cons_a in Hc. simpl in Hc. unfold fin_of in Hp. simpl in Hp.
+  apply andb_true_iff in Hc; destruct Hc as [Hc Ccm]. apply andb_true_iff in Hc; destruct Hc as [Hc Chb].
+  apply andb_true_iff in Hc; destruct Hc as [Hc Cib]. apply andb_true_iff in Hc; destruct Hc as [Hc Cg].
+  apply andb_true_iff in Hc; destruct Hc as [Hc Cf]. apply andb_true_iff in Hc; destruct Hc as [Cid Cgen].
+  unfold forall_av in H.
+  apply fb_spec with (b := live) in H. apply fph_spec with (x := ph) in H. apply fib_spec with (i := ib) in H; [|assumption].
+  apply fb_spec with (b := rejoin) in H. apply fck_spec with (x := ck) in H. apply fb_spec with (b := hb) in H.
+  apply fcodes_spec with (o := hbin) in H; [|assumption]. apply fcodes_spec with (o := cmin) in H; [|assumption].
+  apply fst4_spec with (x := st) in H. rewrite Hp in H.
+  apply fb_spec with (b := G0) in H.
+  apply fb_spec with (b := idz) in H. apply fb_spec with (b := id_e) in H. apply fb_spec with (b := id_p) in H.
+  apply fb_spec with (b := id_jp) in H. apply fb_spec with (b := id_sp) in H. rewrite Cid in H.
+  apply fb_spec with (b := genz) in H. apply fb_spec with (b := gen_eq) in H. apply fb_spec with (b := gen_le) in H.
+  rewrite Cgen in H.
+  apply fb_spec with (b := fz) in H. apply fb_spec with (b := f_e) in H. apply fb_spec with (b := f_p) in H.
+  apply fb_spec with (b := f_jp) in H. apply fb_spec with (b := f_sp) in H. apply fb_spec with (b := f_id) in H.
+  rewrite Cf in H.
+  apply fb_spec with (b := gz) in H. apply fb_spec with (b := g_eq) in H. apply fb_spec with (b := g_le) in H.
+  rewrite Cg in H. exact H.
+Qed.
